@@ -125,7 +125,7 @@ func VerifyFunc(prog *Program, fi *FuncInfo, tier string) (res *UnitResult) {
 		}
 		u.finish(res)
 	}()
-	fi.loops = collectLoops(fi.Decl)
+	fi.loops = collectLoops(prog, fi)
 	closureLits = collectClosureLits(fi.Pkg.TypesInfo, fi.Decl.Body)
 	u.atAsserts = map[*ast.CallExpr][]*Clause{}
 	u.errDropSites = map[*ast.CallExpr]bool{}
